@@ -90,6 +90,12 @@ func VxC10() {
 			vxAssert(r2 == 2000+v*100+len(s), "method call with a string argument did not reach the string candidate")
 			vxAssert(r3 == 3000+v*100+w, "method call with a *foo argument did not reach the *foo candidate")
 		}
+	case 4: // type, method and function names containing '_'
+		r1, r2, r3, r4, r5, r6, r7, r8 := CallUnderscore(v, i, s)
+		vxAssert(r1 == 1000+v*100+i && r2 == 2000+v*100+len(s), "method overload on a type whose name contains '_' does not dispatch on the argument type")
+		vxAssert(r3 == 1000+v*100+i && r4 == 2000+v*100+len(s), "method overload whose name contains '_' (type name too) does not dispatch on the argument type")
+		vxAssert(r5 == 1000+v*100+i && r6 == 2000+v*100+len(s), "method overload whose name contains '_' does not dispatch on the argument type")
+		vxAssert(r7 == 1000+i && r8 == 2000+len(s), "function overload whose name contains '_' does not dispatch on the argument type")
 	case 3: // operators
 		for _, f := range vxOps {
 			r1, r2, r3 := f(v, w, i)
